@@ -16,6 +16,8 @@ CONSTANTS MaxSteps,   \* bound on the number of calls after the start for the ex
           ContentsC,  \* named contents of those packages
           FlagsC,     \* subset of BOOLEAN: header with its own relationship part + package-level property relationships
           AbsC,       \* subset of BOOLEAN: internal targets written as absolute paths
+          PicC,       \* AddImage: the picture handed over - "png" (PNG named x.png) | "jpg" (JPEG named x.jpg: the extension of
+                      \* the name is not the canonical one of the format) | "gifcap" (GIF named X.GIF); free choices stay free
           KeepC,      \* Render: which document of the engine is kept - "only" (one rendering), "first" (a second document is
                       \* rendered from the same template and data afterwards), "second" (the engine rendered one before);
                       \* rendering is a function of template and data, so the model is the same for all three
@@ -45,8 +47,8 @@ Starts ==
           s \in SchemesC, c \in ContentsC, f \in FlagsC, a \in AbsC, v \in Pick({"mem", "file"})}
 
 Ops ==
-     (IF On("AddImage") THEN {[op |-> "AddImage", where |-> w, via |-> v] : w \in WhereC \ {"resource"}, v \in Pick({"data", "file"})}
-                             \cup {[op |-> "AddImage", where |-> w, via |-> "data"] : w \in WhereC \cap {"resource"}} ELSE {})
+     (IF On("AddImage") THEN {[op |-> "AddImage", where |-> w, via |-> v, pic |-> p] : w \in WhereC \ {"resource"}, v \in Pick({"data", "file"}), p \in PicC}
+                             \cup {[op |-> "AddImage", where |-> w, via |-> "data", pic |-> p] : w \in WhereC \cap {"resource"}, p \in PicC} ELSE {})
   \cup {[op |-> o, kind |-> k] : o \in HfOps \cap OpNames, k \in KindsC}
   \cup (IF On("AddListItem") THEN {[op |-> "AddListItem", via |-> v] : v \in Pick({"item", "bullet", "numbered", "multi"})} ELSE {})
   \cup (IF On("AddFootnote") THEN {[op |-> "AddFootnote", via |-> v] : v \in Pick({"text", "run"})} ELSE {})
